@@ -170,8 +170,11 @@ class Models:
         rng = {}
         k2 = 0
         order = []
+        full = set()       # `:` addresses the whole axis; cells outside the box are never read
         for k, x in enumerate(idx):
             if isinstance(x, slice):
+                if x.start is None and x.stop is None:
+                    full.add(k)
                 lo, hi = _clamp_slice(x, arr.shape[k])
                 rng[k] = (lo, hi)
                 order.append(k)
@@ -184,7 +187,8 @@ class Models:
 
         def region(xs):
             cs = [compare("==", xs[k], f) for k, f in fixedc.items()]
-            cs += [band(compare("<=", lo, xs[k]), compare("<", xs[k], hi)) for k, (lo, hi) in rng.items()]
+            cs += [band(compare("<=", lo, xs[k]), compare("<", xs[k], hi)) for k, (lo, hi) in rng.items()
+                   if k not in full]
             return band(*cs)
 
         def newval(xs):
@@ -256,7 +260,7 @@ class Models:
         lo_c, hi_c = _clamp_slice(sl, lst.length)
         n = arith("-", hi_c, lo_c)
         k = fresh("k", z3.IntSort())
-        comps = [z3.Lambda([k], z3.Select(c, k + V.z3int(lo_c))) for c in lst.comps]
+        comps = [V.canon_lambda([k], V.select(c, [k + V.z3int(lo_c)])) for c in lst.comps]
         return SymList(n, lst.width, lst.dtype, comps=comps)
 
     def value_attr(self, ex, obj, name, line):
@@ -278,6 +282,9 @@ class Models:
                 for s in obj.shape:
                     n = arith("*", n, s)
                 return n
+            if name == "data":
+                # ndarray.data is a buffer view of the same cells; numpy functions accept it as the array
+                return obj
             if name == "copy":
                 return Builtin("ndarray.copy", lambda ex_, a, k, l: obj.snapshot())
             if name == "conj" or name == "conjugate":
@@ -459,41 +466,9 @@ def _imag_part(a):
     return lam_array(a.shape, "real", lambda xs: snap.get(xs).im)
 
 
-# matrix product as an uninterpreted, congruent operation on array terms (per dtype/rank signature)
-_dotfuns = {}
-
-
-def dot_terms(ta, tb, n):
-    """canonical term for sum_k A[.,k]*B[k,.] on real array terms: u_dot(A, B, n)"""
-    key = (ta.sort().sexpr(), tb.sort().sexpr())
-    f = _dotfuns.get(key)
-    if f is None:
-        dom_a = [ta.sort().domain_n(i) for i in range(_arity(ta.sort()))]
-        dom_b = [tb.sort().domain_n(i) for i in range(_arity(tb.sort()))]
-        ra = len(dom_a)
-        rb = len(dom_b)
-        rr = ra + rb - 2
-        if rr == 0:
-            rs = z3.RealSort()
-        else:
-            rs = z3.ArraySort(*([z3.IntSort()] * rr), z3.RealSort())
-        f = _dotfuns[key] = z3.Function("u_dot_%d_%d" % (ra, rb), ta.sort(), tb.sort(), z3.IntSort(), rs)
-    return f(ta, tb, V.z3int(n))
-
-
-def _arity(s):
-    k = 0
-    try:
-        while True:
-            s.domain_n(k)
-            k += 1
-    except Exception:
-        pass
-    return k
-
-
 def _dot(ex, a, b):
-    """numpy.dot / @ for rank-1/2 operands: result cells are u_dot(...) selects; complex by components"""
+    """numpy.dot / @ for rank-1/2 operands, cell-wise by its defining sum  sum_k A[..,k]*B[k,..]"""
+    from . import sums
     if not isinstance(a, SymArr) or not isinstance(b, SymArr):
         if isinstance(a, SymArr) or isinstance(b, SymArr):
             return ex.registry.models.array_binop(ex, "*", a, b)
@@ -501,37 +476,17 @@ def _dot(ex, a, b):
     if a.rank not in (1, 2) or b.rank not in (1, 2):
         raise Unsupported("numpy.dot on rank %d x %d" % (a.rank, b.rank))
     n = a.shape[-1]
+    sa, sb = a.snapshot(), b.snapshot()
     shape = tuple(a.shape[:-1]) + tuple(b.shape[1:] if b.rank == 2 else ())
-    are, aim = a.terms()
-    bre, bim = b.terms()
-    cx = a.dtype == "cx" or b.dtype == "cx"
+    dt = "cx" if "cx" in (a.dtype, b.dtype) else "real"
 
-    def part(x, y):
-        return dot_terms(x, y, n)
-    if not cx:
-        t = part(are, bre)
-        if not shape:
-            return t
-        return SymArr(shape, "real" if (a.dtype != "int" or b.dtype != "int") else "real", re=t, name="dot")
-    zero_like_a = aim if aim is not None else None
-    rr = part(are, bre)
-    parts_re = [rr]
-    parts_im = []
-    if aim is not None and bim is not None:
-        ii = part(aim, bim)
-    else:
-        ii = None
-    ri = part(are, bim) if bim is not None else None
-    ir = part(aim, bre) if aim is not None else None
+    def cell(xs):
+        ia = list(xs[:a.rank - 1])
+        ib = list(xs[a.rank - 1:])
+        return sums.mk_sum(ex, n, lambda k: arith("*", sa.get(ia + [k]), sb.get([k] + ib)))
     if not shape:
-        re = rr if ii is None else rr - ii
-        im = (ri if ri is not None else z3.RealVal(0)) + (ir if ir is not None else z3.RealVal(0))
-        return Cx(re, im)
-    xs = [fresh("x", z3.IntSort()) for _ in shape]
-    re_cell = z3.Select(rr, *xs) - (z3.Select(ii, *xs) if ii is not None else z3.RealVal(0))
-    im_cell = (z3.Select(ri, *xs) if ri is not None else z3.RealVal(0)) + \
-              (z3.Select(ir, *xs) if ir is not None else z3.RealVal(0))
-    return SymArr(shape, "cx", re=z3.Lambda(xs, re_cell), im=z3.Lambda(xs, im_cell), name="dot")
+        return cell([])
+    return lam_array(shape, dt, cell, name="dot")
 
 
 def _install(M):
